@@ -742,10 +742,8 @@ impl Harness for RelocHarness {
         let plan2 = plan.clone();
         crate::kit::crashnote::install_segv_reporter();
         let mut report = sim_run(cfg.to_cfg(), dec, move || scenario(&plan2, &e2));
-        let g = match errs.lock() {
-            Ok(g) => g,
-            Err(p) => p.into_inner(),
-        };
+        #[allow(unused_mut)]
+        let mut g = take_after_run(&errs);
         let mut violation = g.errs.first().map(|(c, m)| Violation { class: c.clone(), msg: m.clone() });
         let mut inconclusive = false;
         if violation.is_none() {
